@@ -57,4 +57,10 @@ def cells(tier):
         out.append(cell(f"s{old}->{new} while idle, then A3|B1", sc, MON))
     sc = scen(pool("inf"), [[A("A", 2)], [FLUSH, ["set_size", 1, {"when": "quiet_idle"}], A("B", 2)]], outcomes=["ret"])
     out.append(cell("sinf A2|flush,size1@idle,B2", sc, MON))
+    # cancellations carrying the optional msg, also of tasks that have not had their first step
+    for size in [1, 2]:
+        for on, o in {"call(msg)": ["cancel_all", {"msg": "m"}], "cgroup(msg)": ["cancel_group", "A", {"msg": "m"}],
+                      "cancel0(msg)": ["cancel", rid("A", 0), {"msg": "m"}]}.items():
+            sc = scen(pool(size), [[A("A", 2)], [o], [A("B", 1)]], outcomes=["ret"])
+            out.append(cell(f"s{size} A2|{on}|B1", sc, MON))
     return out
